@@ -5,6 +5,7 @@
 #ifndef CAT_VERIF_SERVICE_CONTRACTS_H
 #define CAT_VERIF_SERVICE_CONTRACTS_H
 #include "inv.h"
+#include "spec_text.h"
 
 #define OLD(x) __CPROVER_old(x)
 #define RET    __CPROVER_return_value
@@ -211,6 +212,114 @@ static _Bool p_ev_unit_started(const struct cat_object *s, cat_unsolicited_state
 }
 static _Bool p_ev_finished(const struct cat_object *s) { return UST(s) == CAT_UNSOLICITED_STATE_IDLE && UF(s).cmd == NULL; }
 
+/* ---- C19: TEST response and command list, text level (expected text built from the descriptor) ---- */
+/* what the step from FORMAT_TEST_ARGS / the start of a TEST response must leave behind, given the text so far
+ * exp[0..n): finishing part (description, then handler or emission) */
+static _Bool p_c19_finish(const struct cat_object *s, char *exp, size_t n)
+{
+        const struct cat_command *c = g_old.cmd;
+        if (c->description != NULL) {
+                n = x_put(exp, n, &h_crlf[s->cr_flag ? 0 : 1], 2);
+                n = x_put(exp, n, c->description, H_NL);
+        }
+        if (n >= H_CAPA)
+                return p_ack_error_started(s);                   /* does not fit: ERROR, never a truncated line */
+        if (!x_text_is(ABUFP, H_CAPA, exp, n))
+                return 0;
+        return (c->test != NULL) ? (s->state == CAT_STATE_TEST_LOOP && s->position == n) : p_unit_started(s, CAT_STATE_AFTER_FLUSH_OK);
+}
+
+static _Bool p_c19_test_step(const struct cat_object *s)
+{
+        char exp[X_MAXTXT];
+        size_t i, n = g_old.position, m;
+        const struct cat_command *c = g_old.cmd;
+        for (i = 0; i < X_MAXTXT; i++)
+                exp[i] = (i < H_CAPA && i < n) ? (char)g_oldbuf[i] : 0;
+        m = x_token(exp, n, g_old.var, H_NL);
+        if (m == (size_t)-1 || m >= H_CAPA)
+                return p_ack_error_started(s);
+        if (g_old.index + 1 < c->var_num) {
+                /* more variables: a comma, then the next variable */
+                m = x_put(exp, m, ",", 1);
+                if (m > H_CAPA)
+                        return p_ack_error_started(s);
+                if (!(s->state == CAT_STATE_FORMAT_TEST_ARGS && s->index == g_old.index + 1 && s->var == &c->var[s->index] && s->position == m))
+                        return 0;
+                for (i = 0; i < X_MAXTXT; i++)
+                        if (i < m && i < H_CAPA && ABUFP[i] != exp[i])
+                                return 0;
+                return 1;
+        }
+        return p_c19_finish(s, exp, m);
+}
+
+static _Bool p_c19_test_start(const struct cat_object *s)
+{
+        char exp[X_MAXTXT];
+        size_t i, n = 0;
+        const struct cat_command *c = g_old.cmd;
+        for (i = 0; i < X_MAXTXT; i++)
+                exp[i] = 0;
+        n = x_put(exp, n, c->name, H_NL);
+        n = x_put(exp, n, "=", 1);
+        if (n >= H_CAPA)
+                return p_ack_error_started(s);
+        if (p_has_vars(c))
+                return s->state == CAT_STATE_FORMAT_TEST_ARGS && s->index == 0 && s->var == &c->var[0] && s->position == n && x_text_is(ABUFP, H_CAPA, exp, n);
+        return p_c19_finish(s, exp, n);
+}
+
+/* request forms the dispatcher accepts (C19 compares the list against these) */
+static _Bool p_accepts(const struct cat_command *c, cat_cmd_type f)
+{
+        switch (f) {
+        case CAT_CMD_TYPE_RUN: return !c->only_test && c->run != NULL;
+        case CAT_CMD_TYPE_READ: return !c->only_test && (c->read != NULL || p_readable(c));
+        case CAT_CMD_TYPE_WRITE: return !c->only_test && (c->write != NULL || p_writable(c));
+        case CAT_CMD_TYPE_TEST: return (c->test != NULL || p_has_vars(c)) && !c->implicit_write;
+        default: return 0;
+        }
+}
+
+static _Bool p_list_next_cmd(const struct cat_object *s)
+{
+        if (g_old.index + 1 < g_ncmds)
+                return s->state == CAT_STATE_PRINT_CMD && s->index == g_old.index + 1 && s->length == 0 && s->cmd_type == CAT_CMD_TYPE_NONE;
+        return p_ack_ok_started(s);
+}
+
+static _Bool p_c19_list_step(const struct cat_object *s)
+{
+        const struct cat_command *c = &h_cmds[g_old.index];
+        cat_cmd_type t = g_old.cmd_type;
+        char exp[X_MAXTXT];
+        size_t i, n = 0;
+        if (t == CAT_CMD_TYPE_NONE) {
+                if (p_disabled(g_old.index))
+                        return p_list_next_cmd(s);                /* nothing for disabled commands or commands of disabled groups */
+                return s->state == CAT_STATE_PRINT_CMD && s->index == g_old.index && s->cmd_type == (c->only_test ? CAT_CMD_TYPE_TEST : CAT_CMD_TYPE_RUN);
+        }
+        if (t == CAT_CMD_TYPE__TOTAL_NUM)
+                return p_list_next_cmd(s);
+        if (c->implicit_write && p_has_vars(c))
+                return 1;                                         /* excepted by the statement */
+        if (!p_accepts(c, t))                                     /* form not offered: no line, next form */
+                return s->state == CAT_STATE_PRINT_CMD && s->index == g_old.index && s->cmd_type == t + 1 && s->length == g_old.length;
+        for (i = 0; i < X_MAXTXT; i++)
+                exp[i] = 0;
+        if (g_old.length == 0)
+                n = x_put(exp, n, &h_crlf[s->cr_flag ? 0 : 1], 2);
+        n = x_put(exp, n, "AT", 2);
+        n = x_put(exp, n, c->name, H_NL);
+        n = x_put(exp, n, t == CAT_CMD_TYPE_READ ? "?" : t == CAT_CMD_TYPE_WRITE ? "=" : t == CAT_CMD_TYPE_TEST ? "=?" : "", 2);
+        n = x_put(exp, n, &h_crlf[s->cr_flag ? 0 : 1], 2);
+        if (n >= H_CAPA)
+                return p_ack_error_started(s);
+        return s->state == CAT_STATE_FLUSH_IO_WRITE_WAIT && s->write_state == V_WS_AFTER && s->write_buf == ABUFP && s->position == 0 &&
+               s->write_state_after == CAT_STATE_PRINT_CMD && s->index == g_old.index && s->cmd_type == t + 1 && s->length == 1 && x_text_is(ABUFP, H_CAPA, exp, n);
+}
+
 /* ---------------------------------------------------------------------------------------------
  * event machine step
  * ------------------------------------------------------------------------------------------- */
@@ -349,6 +458,10 @@ __CPROVER_assigns(*self, E, EL, G_EV, G_HES, G_UBYTE, __CPROVER_object_whole(g_t
 /* [C10:after-flush-fmt-test] */ __CPROVER_ensures((RAN && g_old.state == CAT_STATE_AFTER_FLUSH_FORMAT_TEST_ARGS) ==> p_reformat_test(self))
 /* [C04,C05,C10:var-write-fail] */ __CPROVER_ensures((AT_VWCALLS == 1 && E.v_ret != 0) ==> p_ack_error_started(self))
 /* [C10:var-read-fail]   */ __CPROVER_ensures((AT_VRCALLS == 1 && E.v_ret != 0) ==> p_ack_error_started(self))
+/* ---- C19: TEST response and command list ---- */
+/* [C19:test-token-step]  */ __CPROVER_ensures((RAN && g_old.state == CAT_STATE_FORMAT_TEST_ARGS) ==> p_c19_test_step(self))
+/* [C19:test-start]       */ __CPROVER_ensures((RAN && (g_old.state == CAT_STATE_AFTER_FLUSH_FORMAT_TEST_ARGS || (g_old.state == CAT_STATE_WAIT_TEST_ACKNOWLEDGE && E.rd_avail && E.rd_ch == '\n'))) ==> p_c19_test_start(self))
+/* [C19:list-step]        */ __CPROVER_ensures((RAN && g_old.state == CAT_STATE_PRINT_CMD) ==> p_c19_list_step(self))
 /* ---- C14: hold ---- */
 #define HOLD_STEP  (RAN && g_old.state == CAT_STATE_HOLD)
 #define HES        (G_HES)  /* release request as seen by the command machine: after the event machine's step */
